@@ -314,6 +314,10 @@ def run(ctx):
 					rn.start_fn = r.choice((0, 5, 101, HYPER - 1, HYPER - 60, r.randrange(HYPER)))
 					rn.gen.clck_start = rn.start_fn
 					ctx.count("restarts_with_new_start_frame")
+				if r.random() < 0.3:
+					# a second stop() in a row (the generator is not running) must not disturb the next start()
+					rn.gen.stop()
+					ctx.count("redundant_stops")
 				err = rn.go()
 				if err:
 					ctx.violation("restart", desc, what = ("clock thread hung after stop()/start() number %d" % (cycle + 1)) if err == "hung"
